@@ -94,6 +94,7 @@ type presentation struct {
 type fwdRec struct {
 	ext   int64
 	bytes []byte
+	sid   uint8 // spatial layer being forwarded when it was first sent
 }
 
 type recvState struct {
@@ -600,6 +601,10 @@ func (w *mediaWorld) judge(rs *recvState, pr *presentation, after rtpconn.VerifL
 			c.Count("probe.nack_answered", 1)
 			if rec := rs.sent[out]; rec != nil {
 				if !bytes.Equal(rec.bytes, pr.fwd) {
+					if len(rec.bytes) == len(pr.fwd) && len(rec.bytes) > 2 && bytes.Equal(rec.bytes[2:], pr.fwd[2:]) && rec.bytes[0] == pr.fwd[0] && (rec.bytes[1]^pr.fwd[1]) == 0x80 {
+						c.Violation("C03.retransmission-marker-differs", "receiver %d (%s, %d spatial layers): retransmission of outgoing seqno %d is identical to the original except for the marker bit (original %v, retransmission %v; forwarded spatial layer then %d, now %d)", rs.idx, w.codec, w.p.Stream.NS, out, rec.bytes[1]&0x80 != 0, pr.fwd[1]&0x80 != 0, rec.sid, after.Sid)
+						return
+					}
 					c.Violation("C03.retransmission-differs", "receiver %d: retransmission of outgoing seqno %d differs from the packet originally sent under it: %s", rs.idx, out, diffPackets(rec.bytes, pr.fwd))
 					return
 				}
@@ -608,7 +613,7 @@ func (w *mediaWorld) judge(rs *recvState, pr *presentation, after rtpconn.VerifL
 		if _, ok := rs.firstOut[ext]; !ok {
 			rs.firstOut[ext] = out
 			rs.outExt[out] = ext
-			rs.sent[out] = &fwdRec{ext: ext, bytes: pr.fwd}
+			rs.sent[out] = &fwdRec{ext: ext, bytes: pr.fwd, sid: after.Sid}
 		}
 		// ---------------- C02: bytes
 		if w.check["C02"] {
